@@ -82,13 +82,24 @@ def handleWire (w : WSt) (ws : List String) : Option (WSt × String) :=
   | ["mon_cn", "afterend", op, r, sst] => some (w, showViols (H2V.Spec.Verdict.afterEnd op r sst))
   | ["mon_cn", "connresult", pc, r, rc] =>
     some (w, showViols (H2V.Spec.Verdict.connResult ((pc.splitOn ",").filterMap (·.toNat?)) r (rc.toNat?.getD 0)))
+  | ["mon_cn", "connresult", pc, r, rc, known] =>
+    some (w, showViols (H2V.Spec.Verdict.connResult ((pc.splitOn ",").filterMap (·.toNat?)) r (rc.toNat?.getD 0) (known == "1")))
   | ["mon_cn", "ioerr", raised, reported] =>
     some (w, showViols (H2V.Spec.Verdict.ioSurfaced ((raised.splitOn ",").filter (· ≠ "-")) reported))
   | ["mon_cn", "bodyend", a, b] =>
     match a.toNat?, b.toNat? with
     | some x, some y => some (w, showViols (H2V.Spec.Verdict.bodyEnd x y))
     | _, _ => none
+  | ["mon_cn", "ended", te] => some (w, showViols (endedByItself w (te == "1")))
   | ["mon_cn", "quiescent"] => some (w, showViols (quiescent w))
+  | ["mon_cn", "quiescent", rw, sw] =>
+    match rw.toInt?, sw.toInt? with
+    | some r, some s => some (w, showViols (quiescent w ++ quiescentWindows w r s))
+    | _, _ => some (w, showViols (quiescent w))
+  | ["mon_cn", "quiescent_stream", sid, rw, sw, live] =>
+    match sid.toNat?, rw.toInt?, sw.toInt? with
+    | some i, some r, some s => some (w, showViols (quiescentStream w i r s (live == "1")))
+    | _, _, _ => none
   | ["mon_cn", "delivered", sid, what] =>
     match sid.toNat? with
     | some s => some (w, showViols (delivered w s what))
